@@ -902,13 +902,25 @@ def _has(conds, kind, lin):
     # conjuncts of the path; a disjunction all but one of whose alternatives contradict another conjunct (`n == 0 and (n != 0 or E <= 5m)`,
     # the negation of a two-flag test) counts as its one remaining alternative
     flat = [c for cc in conds for c in conjuncts(cc)]
-    atoms = [c for c in flat if c[0] in ("eq", "ne")]
+    atoms = [c for c in flat if c[0] in ("eq", "ne", "le")]
 
     def contradicted(d):
         if d[0] == "ne":
             return any(a[0] == "eq" and (a[1] == d[1] or a[1] == -d[1]) for a in atoms)
         if d[0] == "eq":
             return any(a[0] == "ne" and (a[1] == d[1] or a[1] == -d[1]) for a in atoms)
+        if d[0] == "le":
+            # L <= 0 and M <= 0 with L + M a positive constant cannot both hold (`n <= 0` against `1 - n <= 0`)
+            for a in atoms:
+                if a[0] == "le":
+                    sm = a[1] + d[1]
+                    if sm.is_const() and sm.k > 0:
+                        return True
+                if a[0] == "eq":
+                    for sgn in (a[1], -a[1]):
+                        sm = sgn + d[1]
+                        if sm.is_const() and sm.k > 0:
+                            return True
         return False
     extra = []
     for c in flat:
